@@ -6,7 +6,9 @@ real `cnvlib.segmentation.do_segmentation(cnarr, "haar" | "hmm-germline")`:
   profile = chromosomes (1..3), each  level0 + noise | level1 + noise   (a single clean step)   or flat at 0
   noise   = the n mid-point normal quantiles sd * Phi^-1((i + 1/2) / n) (exactly the stated marginal distribution)
             arranged by one member of the deterministic arrangement alphabet of mc/noise.py (affine permutations
-            i -> (a*i + b) mod n, block-reversed and interleaved variants)
+            i -> (a*i + b) mod n, block-reversed and interleaved variants, and inversion in the prime field above
+            n: the affine families are equidistributed, i.e. smoother than independent noise - their window sums
+            are about half as large - so the white-like modular-inverse family carries the no-false-breakpoint side)
   x step kind x (left, right) sizes x sd x bin-weight pattern x bin layout.
 
 The oracle is the statement, literally: one breakpoint per stepped chromosome, cumulative `probes` of the first
@@ -57,7 +59,7 @@ def tier_params(tier):
     t = tier == "thorough"
     full = [(w, lay) for w in WEIGHTS for lay in LAYOUTS]
     return {
-        "sizes": [100, 120, 150, 200, 280, 400] if t else [100, 150, 250, 400],
+        "sizes": [100, 120, 150, 200, 280, 400] if t else [100, 150, 400],
         "sds": [0.01, 0.02, 0.05, 0.08, 0.1] if t else [0.01, 0.05, 0.1],
         "multi_sds": [0.01, 0.05, 0.1],
         "arr_k": 3 if t else 1,  # affine multipliers (x 3 offsets, + block-reversed + interleaved each)
@@ -350,15 +352,19 @@ MANIFEST = {
     "text": "Bounded-exhaustive enumeration of synthetic copy-number profiles through the real do_segmentation with the haar and "
     "hmm-germline methods: every step kind (0/-1, 0/+0.585, for haar 0/+1; both directions) x (left, right) sizes from 100 to 400 "
     "bins x noise sd 0.01..0.1 x bin-weight pattern x bin layout x every member of a finite deterministic noise alphabet "
-    "(normal quantiles arranged by affine, block-reversed and interleaved permutations; no random number generator), flat "
+    "(normal quantiles arranged by affine, block-reversed, interleaved and modular-inverse permutations; no random number "
+    "generator), flat "
     "controls of 100..600 bins with one and two arms, and 2- and 3-chromosome profiles with every combination of step kinds. "
     "Each result is judged by the statement's clauses: one breakpoint per stepped chromosome, within 5 bins, segment means "
     "within 0.1; one segment per arm on flat profiles. Exhaustive inside the stated bound, nothing sampled.",
     "note": "The statement quantifies over random noise; this check decides it only over the finite noise alphabet of mc/noise.py "
     "(every profile has exactly the stated normal marginal distribution; the arrangements are affine permutations of the "
-    "quantile ranks and two derived families). A pass means no arrangement of this family breaks detection, not that detection "
-    "has probability 1. Trusted: pandas/numpy, pomegranate, statistics.NormalDist. Not covered: noise realisations outside "
-    "the alphabet, sizes between the lattice points, profiles mixing flat and stepped chromosomes, stepped chromosomes with a "
-    "centromere gap, non-default thresholds, hmm and hmm-tumor (outside the claim), cbs/flasso (no R here).",
+    "quantile ranks, two derived families, and modular-inverse permutations whose window sums behave like independent noise). "
+    "The claim is exhaustive over that finite noise alphabet only: a pass means no arrangement of this family breaks "
+    "detection, not that detection has probability 1. The quick tier takes (weights, layout) pairs that differ from (all 1, "
+    "uniform) in at most one dimension, the thorough tier the full product. Trusted: pandas/numpy, pomegranate, "
+    "statistics.NormalDist. Not covered: noise realisations outside the alphabet, sizes between the lattice points, profiles "
+    "mixing flat and stepped chromosomes, stepped chromosomes with a centromere gap, non-default thresholds, hmm and "
+    "hmm-tumor (outside the claim), cbs/flasso (no R here).",
     "technique": "explicit enumeration of a finite profile family on the real segmentation code, statement clauses as oracle",
 }
